@@ -223,6 +223,15 @@ def cliOutputPlan (outName : Str) (writeLog : Bool) (outs : List OutAsm) (prefix
 /-- the run as seen by the file system (C16): the planned files opened one after the other -/
 def runPlan (clobber : Bool) (fs : Outputs.FS) (plan : List Str) : Outputs.RunResult := Outputs.runOutputs clobber fs plan
 
+/-! ### `AssemblyStats.log_curation_stats` (assembly_stats.py): the line every run logs (C11 observes it) -/
+
+/-- `f"Curation made {cuts} {cut_plural}, {breaks} {break_plural} and {joins} {join_plural}"` -/
+def curationLogLine (st : Stats) : Str :=
+  "Curation made ".toList ++ intToStr st.cuts ++ [' '] ++
+    (if st.cuts = 1 then "cut in a contig".toList else "cuts in contigs".toList) ++ ", ".toList ++
+    intToStr st.breaks ++ [' '] ++ (if st.breaks = 1 then "break at a gap".toList else "breaks at gaps".toList) ++
+    " and ".toList ++ intToStr st.joins ++ [' '] ++ (if st.joins = 1 then "join".toList else "joins".toList)
+
 /-! ### TESTS: literal inputs run through the real Python (3.12.1, `/venv/bin/python`); each comment is the
     expression evaluated there.  (The real tie to the code is the differential harness; these only pin the functions.) -/
 section Tests
